@@ -46,12 +46,20 @@ class ClientModel:
                 elif cid in common.MONOTONIC_FAMILY and info['mono'] is None:
                     info['mono'] = leaf
         for c in p.conds:
-            a = time_atom(c)
-            if a is not None:
-                info['atoms'].append(a)
+            info['atoms'] += common.time_atoms(c)
             term, op, val, _ = c
             if term[0] == 't' and term[1] == 'discr' and fmt(term[2][0]).endswith('clock_status') and op == '==':
                 info['stored'] = val
+        # the stored statuses this path is taken for: every value of the record's status discriminant that falsifies none
+        # of the path's conditions (covers `match`, `==` on the enum, `!=`, guards ...)
+        from .. import arith
+        leaf = T('discr', self.leaf_self('clock_status'))
+        compat = []
+        for k in (0, 1, 2):
+            if all(arith.cond_holds(c, {leaf: k}) is not False for c in p.conds if arith.mentions(c[0], leaf) or c[0] == leaf):
+                compat.append(k)
+        info['stored_set'] = compat
+        info['status_leaf'] = self.leaf_self('clock_status')
         return info
 
     def leaf_self(self, field):
